@@ -5,10 +5,9 @@
    sibling; ValueError / IndexError for positions), `Crash e` any other exception.  A single-node call is one that
    offers at most one node (`single_node`), as in the property.
 
-   Full statement refuted in the classes of findings 19-22 (the first check of the code, "has neither parent nor
-   siblings", lets a document root without comments around it through; an offered ancestor is caught by lxml only,
-   after delb has moved the tail text; a parentless text node fails with AttributeError for tag(); item assignment on
-   a childless node does not check at all -- the last is not modelled: `Crash EUnmodelled`).
+   Findings 19-22 of the first round are repaired in the code (fix commits 572482a, f71365f, e224b43, 84d977e); the
+   scripts follow the repaired code, the former refutations are regression examples (`C09_repaired_findings`), and the
+   theorems hold without any guard.
    Missing: `C09_reject_iff` for append / insert / item assignment and deletion as closed formulas (their refusals
    are covered by `C09_reject_unchanged` and `C09_reject_agrees`, and by the refusal table for siblings, detach and
    replace below); comment content / PI target assignment is proved for the generated validators only (the setters
@@ -66,22 +65,17 @@ Theorem C09_pi_target_validator : forall s,
 Proof. exact pi_target_refused_iff. Qed.
 Print Assumptions C09_pi_target_validator.
 
-(* findings 20-22 *)
-Theorem C09_docroot_offer_refuted : exists c p n,
-  is_doc_root (abs_world c) n = true /\ snd (cstep fall c (OAppend p [SNode n])) = ROk.
-Proof. exists w_dns, 1%N, 0%N. exact docroot_offer_not_refused. Qed.
-Print Assumptions C09_docroot_offer_refuted.
-Theorem C09_ancestor_offer_refuted : exists c x n,
-  cwf c /\ snd (cstep fall c (OAddFollowing x [SNode n])) = Crash EValueError.
-Proof. exists w_anc, 2%N, 1%N. exact ancestor_offer_crashes. Qed.
-Print Assumptions C09_ancestor_offer_refuted.
-Theorem C09_loose_text_tagdef_refuted : exists c x i name,
-  snd (cstep fall c (OAddFollowing x [STag i name])) = Crash EAttributeError.
-Proof. exists w_big, 12%N, 30%N, [120%N]. exact loose_text_tagdef_crashes. Qed.
-Print Assumptions C09_loose_text_tagdef_refuted.
+(* the witnesses of the repaired findings 19-22: refused, nothing changed *)
+Local Open Scope N_scope.
+Example C09_repaired_findings :
+  cstep fall w_item (OSetItem 3 0%Z (SNode 1)) = (w_item, Rejected EInvalidOperation) /\
+  cstep fall w_dns (OAppend 1 [SNode 0]) = (w_dns, Rejected EInvalidOperation) /\
+  cstep fall w_anc (OAddFollowing 2 [SNode 1]) = (w_anc, Rejected EInvalidOperation) /\
+  cstep fall w_anc (OAppend 2 [SNode 1]) = (w_anc, Rejected EInvalidOperation) /\
+  cstep fall w_big (OAddFollowing 12 [STag 30 [120]]) = (w_big, Rejected EInvalidOperation).
+Proof. exact repaired_findings. Qed.
 
 (* every kind of refusal the property lists occurs, and leaves the world as it was *)
-Local Open Scope N_scope.
 Example C09_example :
   cwf w_big /\
   cstep fall w_big (OAddFollowing 3 [SNode 9]) = (w_big, Rejected EInvalidOperation) /\
